@@ -952,10 +952,10 @@ def run(ctx):
             shr = [(b.with_(section="q3", strategy="radial", energy=0.7, method="fixed", order=4), (0.02, 0.01, 0.005)),
                    (b.with_(section="p2", strategy="level_sets", energy=0.4, method="fixed", order=6), (0.02, 0.01)),
                    (b.with_(section="q2", strategy="axis_aligned", energy=0.5, method="symplectic", order=4, n_iter=2), (0.02, 0.01)),
-                   (b.with_(section="q2", strategy="level_sets", energy=0.5, method="symplectic", order=6, n_iter=1), (0.01, 0.005))]
+                   (b.with_(section="q2", strategy="axis_aligned", energy=0.6, method="symplectic", order=6, n_iter=1), (0.01, 0.005))]
         else:
             shr = []
-            for (p, d) in points:
+            for (p, d) in points[:2]:
                 for sec in SECTIONS:
                     for (m, o) in RK_SCHEMES + (("symplectic", 4), ("symplectic", 6)):
                         h = {"L1": 0.7, "L2": 0.4}[p]
